@@ -228,7 +228,8 @@ CLAIMED = {
         note="Trusted: TLC, Python generator, the plan-rewriting harness (harness/src/c02.rs). Rayon-internal interleavings are not controlled. "
              "Plan.tla (operational semantics of bind / hash / nested-loop joins) is checked by TLC as a theorem over a small menu; the code is "
              "bound by trace validation only.",
-        technique="TLA+ denotational specification as oracle over a configuration matrix of recorded plan executions (trace validation)",
+        technique="TLA+ operational plan semantics proved equal to the denotational one by TLC over a small universe (Plan.tla) + TLA+ denotational "
+                  "specification as oracle over a configuration matrix of recorded plan executions (trace validation)",
     ),
     "C03": dict(
         category="model_checking",
@@ -262,12 +263,15 @@ CLAIMED = {
         text="Sparql.tla is a denotational TLA+ definition of the supported SELECT fragment (bag semantics, dataset views, group-scoped FILTER, "
              "BIND, VALUES/UNDEF, subqueries, aggregates, acceptance of ORDER BY / LIMIT / DISTINCT). Seeded (dataset, syntax tree) pairs are "
              "printed to text, executed by the real engine through both SELECT entry points, and TLC judges every recorded (stored dataset, "
-             "tree, rows) event against Eval; deviations are re-judged under named relaxations of the expression semantics to classify them.",
+             "tree, rows) event against Eval; deviations are re-judged under named relaxations of the expression semantics to classify them. "
+             "The oracle itself is checked first: TLC evaluates 15 algebraic laws of the SPARQL algebra on Eval (MCLaws.tla, 18432 instances, "
+             "with a failing control for unsound filter push-down).",
         design_ref="DESIGN.md section 5 (C01)",
         note="Trusted: TLC, the Python generator/printer (the tree TLC evaluates and the text the engine parses come from the same object), "
              "lexical kind/number/rank tables computed in Python. No exhaustive state space: evidence is trace validation of sampled queries "
              "(quick 1200, thorough 10000) over a 14-term universe. Non-definite subquery cuts and non-numeric aggregate inputs are skipped.",
-        technique="TLA+ denotational specification evaluated by TLC as oracle (trace validation of recorded query executions)",
+        technique="TLA+ denotational specification evaluated by TLC as oracle (trace validation of recorded query executions); algebraic laws of "
+                  "the specification checked by TLC",
     ),
     "C04": dict(
         category="model_checking",
